@@ -27,6 +27,7 @@ func main() {
 	smoothSections(r, k2, r.N(24000, 150000), r.N(5000, 30000))
 	rectSetSection(r, r.N(6000, 36000))
 	rectSetForkSection(r, r.N(2500, 20000))
+	rectSetUnboundedSection(r, r.N(2000, 20000))
 
 	for _, t := range []string{"3d", "2d"} {
 		r.Require(t+".bool.points", 10000)
@@ -64,6 +65,7 @@ func main() {
 	r.Require("3d.stack.points_inside_translated_operand", 2000)
 	r.Require("3d.stack.points_on_interface", 200)
 	r.Require("rectset.histories", 100)
+	r.Require("rectset.unbounded.points_inside", 2000)
 	r.Require("rectset.histories_with_removal", 50)
 	r.Require("rectset.points", 50000)
 	r.Require("rectset.points_on_set_boundary_decided", 1000)
